@@ -623,7 +623,23 @@ func (p *Parser) ParsingIter() iter.Seq[*ParserReply] {
 		// allow ParseExpression to yield when deep
 		// down the stack (half way through a parse)
 		// and we need more input.
-		p.yield = yield
+		//
+		// Once the consumer has stopped the iteration (yield
+		// returned false), the descent unwinds and may reach
+		// further yield points; the real yield must not be
+		// called again then (the runtime panics if a range
+		// loop body is re-entered after it returned).
+		stopped := false
+		p.yield = func(reply *ParserReply) bool {
+			if stopped {
+				return false
+			}
+			if !yield(reply) {
+				stopped = true
+				return false
+			}
+			return true
+		}
 
 		var expr Sexp
 		var err error
@@ -641,7 +657,7 @@ func (p *Parser) ParsingIter() iter.Seq[*ParserReply] {
 				} else if needMore {
 					// unterminated string literal
 					p.sendMe.Err = ErrMoreInputNeeded
-					if !yield(p.sendMe) {
+					if !p.yield(p.sendMe) {
 						return
 					}
 					continue
@@ -649,7 +665,7 @@ func (p *Parser) ParsingIter() iter.Seq[*ParserReply] {
 			}
 			if err != nil || expr == SexpEnd {
 				p.sendMe.Err = err
-				yield(p.sendMe)
+				p.yield(p.sendMe)
 				return
 			}
 			p.sendMe.Expr = append(p.sendMe.Expr, expr)
